@@ -248,15 +248,33 @@ def mightPaintM (sh : ShapeRec) : DocM Bool := do
     | _ => fail .typeError
   else liftE (sh.mightPaint none)
 
-/-- `remove_empty_subpaths` on every path of the cache -/
-def removeEmptySubpaths : DocM Unit := mapAllShapes (fun sh =>
-  if sh.tag != "path" then pure sh else do
-    let subs ← liftE (SvgPath.subpaths (sh.getS "d"))
-    let mut kept : List String := []
-    for sub in subs do
-      let probe := sh.set "d" (.s sub)
-      if ← mightPaintM probe then kept := kept ++ [sub]
-    pure (sh.set "d" (.s (" ".intercalate kept))))
+/-- `_painted_elsewhere()`: the element's own paint says nothing about what it contributes — it sits in a clipPath (geometry
+    only) or in defs, or it (or an ancestor) is what a `use` element refers to -/
+def paintedElsewhere (root : Node) (u : Nat) : Bool :=
+  let usedIds := (root.elems.filter (fun n => n.tag == Node.svgTag "use")).map
+      (fun n => (((n.getAttr Node.xlinkHref).getD "").drop 1).toString) |>.filter (· != "")
+  let chain := (match Node.findUid root u with | some n => [n] | none => []) ++ Node.ancestors root u
+  chain.any (fun a => a.localTag == "clipPath" || a.localTag == "defs" ||
+    (match a.getAttr "id" with | some i => usedIds.contains i | none => false))
+
+/-- `remove_empty_subpaths` on every path of the cache that is painted where it stands -/
+def removeEmptySubpaths : DocM Unit := do
+  let root0 ← getRoot
+  let l ← elements
+  let mut out : List (Nat × List ShapeRec) := []
+  for (u, shapes) in l do
+    match shapes with
+    | [sh] =>
+      if sh.tag != "path" || paintedElsewhere root0 u then out := out ++ [(u, [sh])]
+      else
+        let subs ← liftE (SvgPath.subpaths (sh.getS "d"))
+        let mut kept : List String := []
+        for sub in subs do
+          let probe := sh.set "d" (.s sub)
+          if ← mightPaintM probe then kept := kept ++ [sub]
+        out := out ++ [(u, [sh.set "d" (.s (" ".intercalate kept))])]
+    | _ => fail .valueError
+  setCache out
 
 /-- `remove_unpainted_shapes` -/
 def removeUnpaintedShapes : DocM Unit := do
@@ -267,8 +285,7 @@ def removeUnpaintedShapes : DocM Unit := do
   for (u, shapes) in l do
     match shapes with
     | [sh] =>
-      -- the children of a clipPath are geometry (their paint is irrelevant), a template in defs is painted by its use elements
-      if (Node.ancestors root0 u).any (fun a => a.localTag == "clipPath" || a.localTag == "defs") then pure ()
+      if paintedElsewhere root0 u then pure ()
       else if !(← mightPaintM sh) then remove := remove ++ [u]
     | _ => fail .valueError
   for u in remove do
